@@ -221,7 +221,9 @@ func workloads() []workload {
 				_, _ = l.AsyncCall(bg, line.NewCallCtx(func(c context.Context, req interface{}) (interface{}, error) { return req, nil }, id))
 			}
 		}
-		par(call(1), call(2), func() { _, _ = l.AsyncCall(cancelled(), line.NewCallCtx(func(c context.Context, req interface{}) (interface{}, error) { return req, nil }, 3)) }, l.Stop)
+		par(call(1), call(2), func() {
+			_, _ = l.AsyncCall(cancelled(), line.NewCallCtx(func(c context.Context, req interface{}) (interface{}, error) { return req, nil }, 3))
+		}, l.Stop)
 		wg.Wait()
 		m := mline.NewMultiLine(pipe.WithSlotSize(2), pipe.WithQSize(4))
 		m.Run()
@@ -271,12 +273,26 @@ func workloads() []workload {
 				st[d.(rec).k] = d.(rec).v
 				return d.(rec).v, nil
 			}
-			del := func(ctx context.Context, d interface{}) error { mu.Lock(); defer mu.Unlock(); delete(st, d.(mux.Int)); return nil }
+			del := func(ctx context.Context, d interface{}) error {
+				mu.Lock()
+				defer mu.Unlock()
+				delete(st, d.(mux.Int))
+				return nil
+			}
 			g.Start()
 			par(func() { _, _ = g.DoAdd(bg, add, mux.Int(1), rec{1, "a"}); _, _ = g.DoGet(bg, load, mux.Int(1)) },
-				func() { _, _ = g.DoUpdate(bg, load, upd, mux.Int(1), rec{1, "b"}); _, _ = g.DoDelete(bg, del, mux.Int(1)) },
-				func() { _, _ = g.DoUpsertThenLoad(bg, upd, load, mux.Int(3), rec{3, "c"}); _, _ = g.DoGet(bg, load, mux.Int(3)) },
-				func() { _, _ = g.DoUpsertThenRenewInCache(bg, upd, mux.Int(1), rec{1, "d"}); _, _ = g.DoGet(bg, load, mux.Int(1)) })
+				func() {
+					_, _ = g.DoUpdate(bg, load, upd, mux.Int(1), rec{1, "b"})
+					_, _ = g.DoDelete(bg, del, mux.Int(1))
+				},
+				func() {
+					_, _ = g.DoUpsertThenLoad(bg, upd, load, mux.Int(3), rec{3, "c"})
+					_, _ = g.DoGet(bg, load, mux.Int(3))
+				},
+				func() {
+					_, _ = g.DoUpsertThenRenewInCache(bg, upd, mux.Int(1), rec{1, "d"})
+					_, _ = g.DoGet(bg, load, mux.Int(1))
+				})
 			g.Stop()
 			_ = g.WaitStop(bg)
 		}
@@ -313,6 +329,78 @@ func workloads() []workload {
 		dl := time.Now().Add(2 * time.Second)
 		for mgr.ConnCount() != 0 && time.Now().Before(dl) {
 			time.Sleep(time.Millisecond)
+		}
+	}})
+	// C15 routing: keys of every hashing family hashed by several goroutines at once
+	ws = append(ws, workload{"mux/key-hashing", "C15", func(r int) {
+		h := func(ks ...mux.Hashed2Int) func() {
+			return func() {
+				for i := 0; i < 20; i++ {
+					for _, k := range ks {
+						_ = k.HashedInt()
+					}
+				}
+			}
+		}
+		par(h(mux.Int64CRC(r), mux.IntCRC(r), mux.String("a"), mux.Int32CRC(r)), h(mux.UInt64CRC(r), mux.UIntCRC(r), mux.Bytes("b"), mux.UInt32CRC(r)), h(mux.Int64CRC(-r), mux.Int(r)))
+	}})
+	// C16 flush clause over REAL loopback TCP (kernel sockets cannot be put under the scheduler; code that
+	// special-cases *net.TCPConn is invisible to the fake connection of the model-checked scenarios):
+	// everything accepted by Send before a local Close reaches a slowly reading peer, which then sees EOF.
+	ws = append(ws, workload{"stcp/loopback-flush", "C16", func(r int) {
+		if r >= 3 {
+			return // three rounds (one per write timeout) are enough; each moves 2 MiB
+		}
+		wt := []time.Duration{500 * time.Millisecond, 999 * time.Millisecond, 3 * time.Second}[r]
+		ln, err := net.Listen("tcp", "127.0.0.1:0")
+		if err != nil {
+			fmt.Println("RACEPASS-NOTE loopback unavailable:", err)
+			return
+		}
+		defer ln.Close()
+		mgr := stcp.NewSessionMgr(&echoH{}, stcp.WithWriteTimeout(wt), stcp.WithReadTimeout(5*time.Second))
+		const chunk, chunks = 64 << 10, 32
+		done := make(chan string, 1)
+		go func() {
+			c, err := net.Dial("tcp", ln.Addr().String())
+			if err != nil {
+				done <- "dial: " + err.Error()
+				return
+			}
+			defer c.Close()
+			time.Sleep(30 * time.Millisecond) // a lagging peer
+			buf := make([]byte, 32<<10)
+			total := 0
+			for {
+				_ = c.SetReadDeadline(time.Now().Add(5 * time.Second))
+				n, err := c.Read(buf)
+				total += n
+				if err != nil {
+					if err.Error() == "EOF" && total == chunk*chunks {
+						done <- ""
+					} else {
+						done <- fmt.Sprintf("peer received %d of %d bytes, stream ended with %v (write timeout %v)", total, chunk*chunks, err, wt)
+					}
+					return
+				}
+			}
+		}()
+		sc, err := ln.Accept()
+		if err != nil {
+			fmt.Println("RACEPASS-NOTE accept:", err)
+			return
+		}
+		s := stcp.NewSession(mgr, sc)
+		s.Start()
+		payload := make([]byte, chunk)
+		for i := 0; i < chunks; i++ {
+			if err := s.Send(payload); err != nil {
+				fmt.Println("RACEPASS-FLUSH-FAIL Send refused:", err)
+			}
+		}
+		s.Close()
+		if msg := <-done; msg != "" {
+			fmt.Println("RACEPASS-FLUSH-FAIL", msg)
 		}
 	}})
 	return ws
